@@ -123,3 +123,67 @@ Proof.
   - change (execute_dispatch cfg op (begin_instr s1 op)) with (Mul_execute cfg w (bit w 20) m d n (begin_instr s1 op)).
     apply Mul_sem; try lia; [apply ictx_begin; exact Hctx|apply cond_holds_begin; exact Hcond].
 Qed.
+
+(* ================= CLZ (ARM) A1: cond != 1111, 0001 0110 (1111) Rd (1111) 0001 Rm ================= *)
+Definition is_clz_a1 (w : Z) : Prop :=
+  bits w 31 28 <> 15 /\ bit w 27 = 0 /\ bit w 26 = 0 /\ bit w 25 = 0 /\ bit w 24 = 1 /\ bit w 23 = 0 /\ bit w 22 = 1 /\ bit w 21 = 1
+  /\ bit w 20 = 0 /\ bit w 7 = 0 /\ bit w 6 = 0 /\ bit w 5 = 0 /\ bit w 4 = 1 /\ regs13 [bits w 15 12; bits w 3 0] = true.
+
+Lemma decode_ClzA1 w s : 0 <= w < 2 ^ 32 -> is_clz_a1 w -> iset_of s = 0 ->
+  ArmV6_decode_instruction w s = Ok (Some enc_ClzA1) s.
+Proof.
+  intros Hw (Hc & H27 & H26 & H25 & H24 & H23 & H22 & H21 & H20 & H7 & H6 & H5 & H4 & Hr) Hi. split_regs.
+  unfold ArmV6_decode_instruction, op_decode_instruction.
+  rewrite !run_bind, current_instr_set_spec. cbv beta iota. rewrite Hi. unfold InstrSet_ARM. cbn [Z.eqb]. cbv iota.
+  rewrite run_bind.
+  assert (D : dec_arm_instruction_set w = Val (Some enc_ClzA1)).
+  { dec_step dec_arm_instruction_set. pose_expand w 27 25. pose_expand w 27 26. ops_if. cbn [ebind].
+    dec_step dec_arm_data_processing_and_miscellaneous_instructions. pose_expand w 24 23. ops_if. cbn [ebind].
+    dec_step dec_arm_miscellaneous_instructions. pose_expand w 6 4. pose_expand w 22 21. ops_if. reflexivity. }
+  rewrite D. reflexivity.
+Qed.
+
+Lemma from_bitarray_ClzA1 cfg w s : 0 <= w < 2 ^ 32 -> is_clz_a1 w ->
+  from_bitarray_dispatch cfg enc_ClzA1 w s = Ok (Some (code_Clz, [w; bits w 3 0; bits w 15 12])) s.
+Proof.
+  intros Hw (_ & _ & _ & _ & _ & _ & _ & _ & _ & _ & _ & _ & _ & Hr).
+  pose proof (ops_ClzA1 w s Hw Hr) as H. unfold fb_out, fb_plain, fb_opt, fb_res, fb_res_opt, fb_m, fb_m_opt in H.
+  unfold from_bitarray_dispatch, enc_ClzA1. cbv iota. unfold bind, ret, lift in *.
+  repeat match goal with
+  | H : match ?x with _ => _ end = _ |- context[?x] => destruct x; try discriminate H
+  end.
+  inversion H. first [reflexivity | match goal with E : _ = Some _ |- _ => rewrite E end; reflexivity].
+Qed.
+
+Lemma clz_word x : 0 <= x -> word (CountLeadingZeroBits32 x) \/ x >= 2 ^ 32.
+Proof.
+  intros Hx. destruct (Z_lt_ge_dec x (2 ^ 32)) as [Hlt|Hge]; [left|right; lia].
+  unfold CountLeadingZeroBits32, word. destruct (x =? 0) eqn:E; [change (2 ^ 32) with 4294967296; lia|].
+  assert (0 < x) by lia. pose proof (Z.log2_nonneg x). assert (Z.log2 x < 32) by (apply Z.log2_lt_pow2; lia).
+  change (2 ^ 32) with 4294967296. lia.
+Qed.
+
+Theorem clz_a1_step cfg s w s1 :
+  ArmV6_fetch_instruction cfg s = Ok w s1 ->
+  0 <= w < 2 ^ 32 -> is_clz_a1 w -> iset_of s1 = 0 -> ictx cfg s1 -> cond_holds s1 ->
+  let d := bits w 15 12 in let m := bits w 3 0 in
+  let op := (code_Clz, [w; m; d]) in
+  let s2 := CLZ_sem (begin_instr s1 op) m d in
+  ArmV6_emulate_cycle cfg s = Ok tt (AdvancePC (it_step_after s1 s2)) /\
+  pc_of (AdvancePC (it_step_after s1 s2)) = add32 (pc_of s1) (opcode_len s1 / 8).
+Proof.
+  intros Hf Hw Hcube Hi Hctx Hcond. pose_all_ranges. intros d m op s2.
+  pose proof Hcube as (_ & _ & _ & _ & _ & _ & _ & _ & _ & _ & _ & _ & _ & Hr). split_regs.
+  assert (Qd : 0 <= d <= 12) by (unfold d; lia). assert (Qm : 0 <= m <= 12) by (unfold m; lia).
+  pose proof (ictx_begin cfg s1 op Hctx) as Hctx0.
+  pose proof (word_rget cfg (begin_instr s1 op) m Hctx0 ltac:(lia)) as Wm.
+  assert (Wv : word (CountLeadingZeroBits32 (rget (begin_instr s1 op) m))).
+  { destruct (clz_word (rget (begin_instr s1 op) m) ltac:(destruct Wm; lia)) as [W|W]; [exact W|destruct Wm; lia]. }
+  apply (plain_step cfg s w s1 enc_ClzA1 op s2 Hf); try assumption.
+  - apply decode_ClzA1; assumption.
+  - apply from_bitarray_ClzA1; assumption.
+  - change (execute_dispatch cfg op (begin_instr s1 op)) with (Clz_execute cfg w m d (begin_instr s1 op)).
+    apply Clz_sem; try lia; [exact Hctx0|apply cond_holds_begin; exact Hcond].
+  - unfold s2, CLZ_sem. apply ictx_rset; [exact Hctx0|lia|exact Wv].
+  - unfold s2, CLZ_sem. apply keeps_pc_rset. lia.
+Qed.
